@@ -863,3 +863,93 @@ Proof.
   intros Hp Hl Hs H2. apply (fc_hull_thm sorter score hull sdist xs Hp MHull labels knees Hl Hs H2); [|reflexivity].
   intros H. discriminate.
 Qed.
+
+(* ------------------------------------------------------------------------------------------ *)
+(* the DERIVED ranking score of the left / linear / right modes (Model: smooth_score): its only oracle is the fit
+   quality r2 of a slice; every theorem above is generic in `score`, so it applies, and the shape hypothesis is
+   discharged (one score per member by construction) *)
+
+Section SmoothFacts.
+  Context {N : Num}.
+  Variable r2 : nat -> nat -> T N.
+  Variable ys : list (T N).
+
+  Lemma mul_lists_length : forall (a b : list (T N)), length a = length b -> length (mul_lists a b) = length a.
+  Proof.
+    induction a as [|x a IH]; intros [|y b] H; cbn in *; try lia. f_equal. apply IH. lia.
+  Qed.
+  Lemma smooth_weights_length c : length (smooth_weights ys c) = length c.
+  Proof.
+    unfold smooth_weights. destruct (_ =?! _); rewrite ?map_length; reflexivity.
+  Qed.
+  Lemma smooth_score_length m c : length (smooth_score r2 ys m c) = length c.
+  Proof.
+    unfold smooth_score. rewrite mul_lists_length; rewrite map_length; auto. rewrite smooth_weights_length. reflexivity.
+  Qed.
+
+  Variable sorter : list (T N) -> list nat.
+  Variable hull : list nat.
+  Variable sdist : nat -> nat -> T N.
+  Variable xs : list (T N).
+  Hypothesis sorter_perm : forall l, Permutation (sorter l) (seq 0 (length l)).
+  Variable m : fmode.
+  Variables labels knees : list nat.
+  Hypothesis Hlab : labels_ok labels knees = true.
+  Hypothesis Hsi : strictly_increasing knees = true.
+  Hypothesis Hk2 : 2 <= length knees.
+
+  Theorem fc_smooth_one_per_cluster : is_hull m = false ->
+    exists res, filter_clusters sorter (smooth_score r2 ys m) hull sdist xs m labels knees = Some res /\
+                one_per_cluster_b labels knees res = true.
+  Proof.
+    intros Hm. apply fc_one_per_cluster_thm; auto. intros _ i _ _. apply smooth_score_length.
+  Qed.
+
+  Theorem fc_smooth_best :
+    TotalPreorderOn (@notnan N) -> (forall l, Forall notnan l -> adj_sorted l (sorter l)) -> is_hull m = false ->
+    exists res, filter_clusters sorter (smooth_score r2 ys m) hull sdist xs m labels knees = Some res /\
+                best_b true (smooth_score r2 ys m) labels knees res = true.
+  Proof.
+    intros ord Hs Hm. apply fc_best_thm; auto. intros _ i _ _. apply smooth_score_length.
+  Qed.
+
+  (* hull mode: the kept member of a ranked multi-member cluster attains the maximum of the similarity the code sorts
+     (max error - error, errors = sums of shortest distances x normalised lengths), Tier O, any sorting permutation *)
+  Theorem fc_hull_best (score : list nat -> list (T N)) :
+    TotalPreorderOn (@notnan N) -> (forall l, Forall notnan l -> adj_sorted l (sorter l)) ->
+    exists res, filter_clusters sorter score hull sdist xs MHull labels knees = Some res /\
+                best_b true (hull_score hull sdist xs) labels knees res = true.
+  Proof.
+    intros ord Hs.
+    assert (Hshape : is_hull MHull = false -> forall i, i <= max_label labels -> 2 <= length (members labels knees i) ->
+                     length (score (members labels knees i)) = length (members labels knees i)) by (intros H; discriminate).
+    eexists. split; [apply (fc_result sorter score hull sdist xs sorter_perm MHull labels knees Hlab Hk2 Hshape)|].
+    unfold best_b. apply forallb_forall. intros k Hk. apply picked_In in Hk. destruct Hk as [i [_ Hk]].
+    destruct (f_some sorter score hull sdist xs sorter_perm MHull labels knees Hlab Hshape i k Hk) as [Hin _].
+    assert (Hnd : NoDup knees) by (apply SI_NoDup; apply SI_iff; auto).
+    rewrite (members_label labels knees i k Hnd Hin).
+    set (c := members labels knees i) in *.
+    destruct (length c <=? 1) eqn:El; [reflexivity|]. cbn [andb orb].
+    destruct (all_notnan (hull_score hull sdist xs c)) eqn:En; [|reflexivity]. cbn [negb].
+    apply Nat.leb_gt in El.
+    assert (Hpk : cluster_pick sorter score hull sdist xs MHull c =
+                  match hull_rankings hull sdist xs c with
+                  | None => PNone
+                  | Some r => match nth_error c (pick_index sorter r) with Some k => PSome k | None => PErr end
+                  end).
+    { destruct c as [|k0 [|k1 c']]; [cbn in El; lia|cbn in El; lia|]. reflexivity. }
+    rewrite Hpk in Hk. unfold hull_score in *.
+    destruct (hull_rankings hull sdist xs c) as [r|] eqn:Er; [|discriminate].
+    pose proof (hull_rankings_length hull sdist xs c r Er) as Hl.
+    assert (Hr : r <> []) by (destruct r; [cbn in Hl; lia|congruence]).
+    destruct (rank_argmax_last (sorter r) (length r) (sorter_perm r)) as [Hp Hlt]; [destruct r; [congruence|cbn; lia]|].
+    unfold pick_index in Hk. rewrite Hp in Hk.
+    destruct (nth_error c (last (sorter r) 0)) as [k'|] eqn:Ee; [|discriminate].
+    inversion Hk; subst k'.
+    assert (Hidx : index_of k c = last (sorter r) 0).
+    { rewrite <- (nth_error_nth c _ 0 Ee). apply index_of_nth; [apply members_NoDup; auto|].
+      apply nth_error_Some. congruence. }
+    rewrite Hidx. apply sorter_last_is_max; auto. apply Hs. apply all_notnan_Forall; auto.
+    apply all_notnan_Forall; auto.
+  Qed.
+End SmoothFacts.
